@@ -201,6 +201,7 @@ pub fn run_script(opts: &[&str], script: &[Step], healthy: &[u8], expect_in_fina
         }
     }
     let handle = spawn_reader_thread(cfg.args.clone(), Planes { aircrafts: table.clone() });
+    let reader = handle.thread().id();
     crate::run::describe_current(&format!("TCP script {:?}", script.iter().map(|s| s.name()).collect::<Vec<_>>()));
 
     let mut steps: Vec<Option<&Step>> = script.iter().map(Some).collect();
@@ -211,7 +212,7 @@ pub fn run_script(opts: &[&str], script: &[Step], healthy: &[u8], expect_in_fina
             Some(Step::Refuse) => {
                 // nobody listens; (re)start the attempt by releasing the pause of the previous step
                 if !first {
-                    shim::release_latest_sleep();
+                    shim::release_sleep_of(reader);
                 }
             }
             other => {
@@ -225,7 +226,7 @@ pub fn run_script(opts: &[&str], script: &[Step], healthy: &[u8], expect_in_fina
                     }
                 }
                 if !first {
-                    shim::release_latest_sleep();
+                    shim::release_sleep_of(reader);
                 }
                 let l = listener.take().unwrap();
                 let mut s = match accept(&l) {
@@ -276,9 +277,10 @@ pub fn run_script(opts: &[&str], script: &[Step], healthy: &[u8], expect_in_fina
                         let _ = ok;
                         rep.final_table = snapshot(&table);
                         rep.alive = !handle.is_finished();
-                        if shim::sleep_requests() != seen {
+                        let extra = shim::sleep_log_of(reader, seen);
+                        if !extra.is_empty() {
                             // the reader paused although the healthy connection is open
-                            rep.sleeps_per_step.push(shim::sleep_log_after(seen).iter().map(|x| x.1).collect());
+                            rep.sleeps_per_step.push(extra.iter().map(|x| x.1).collect());
                         }
                         // keep the connection open until the report is complete, then leak everything
                         std::mem::forget(s);
@@ -289,7 +291,7 @@ pub fn run_script(opts: &[&str], script: &[Step], healthy: &[u8], expect_in_fina
             }
         }
         // every scripted step ends with the reader parked in a pause
-        let parked = wait_until(|| shim::sleep_requests() > seen || handle.is_finished());
+        let parked = wait_until(|| !shim::sleep_log_of(reader, seen).is_empty() || handle.is_finished());
         if handle.is_finished() {
             rep.alive = false;
             rep.reader_result = Some(match handle.join() {
@@ -304,7 +306,7 @@ pub fn run_script(opts: &[&str], script: &[Step], healthy: &[u8], expect_in_fina
             rep.machinery = Some(format!("step {i} ({}): reader neither paused nor finished within the step timeout", st.map(|s| s.name()).unwrap_or_default()));
             break;
         }
-        let log = shim::sleep_log_after(seen);
+        let log = shim::sleep_log_of(reader, seen);
         seen = shim::sleep_requests();
         rep.sleeps_per_step.push(log.iter().map(|x| x.1).collect());
         rep.tables.push(snapshot(&table));
